@@ -11,6 +11,9 @@ package main
 //   and the final sandbox equals the one computed by Model.Rm (driver) for Remove / CleanDir.
 
 import (
+	"github.com/spf13/afero"
+	"sync/atomic"
+	"syscall"
 	"bufio"
 	"context"
 	"encoding/json"
@@ -137,6 +140,14 @@ func snapshotRm(s string) map[string]string {
 			return nil
 		}
 		rel := filepath.ToSlash(strings.TrimPrefix(path, s+string(filepath.Separator)))
+		defer func() {
+			// owner, when it is not the user running the harness (entries given to another user on purpose)
+			if st, ok := info.Sys().(*syscall.Stat_t); ok && int(st.Uid) != os.Getuid() {
+				if v, present := out[rel]; present {
+					out[rel] = fmt.Sprintf("%s@%d:%d", v, st.Uid, st.Gid)
+				}
+			}
+		}()
 		switch {
 		case info.Mode()&os.ModeSymlink != 0:
 			tg, _ := os.Readlink(path)
@@ -275,8 +286,21 @@ func runRmJob(fs filesystem.FS, s string, j rmJob) (res rmChildResult) {
 		pat = strings.Join(j.pats, ",")
 	}
 	res.Hist = append(res.Hist, "entry:"+j.ep)
-	before := snapshotRm(s)
 	tgt := j.root()
+	if j.ep == "RemoveWithPrivileges:first-attempt-refused" && os.Getuid() == 0 {
+		// everything outside the tree belongs to somebody else (links included, without following them)
+		_ = filepath.Walk(s, func(path string, info os.FileInfo, err error) error {
+			if err != nil || path == s {
+				return nil
+			}
+			rel := filepath.ToSlash(strings.TrimPrefix(path, s+string(filepath.Separator)))
+			if rel != tgt && !strings.HasPrefix(rel, tgt+"/") {
+				_ = os.Lchown(path, 54321, 54321)
+			}
+			return nil
+		})
+	}
+	before := snapshotRm(s)
 	root := filepath.Join(s, filepath.FromSlash(tgt))
 	ctx := context.Background()
 	var rerr error
@@ -302,6 +326,15 @@ func runRmJob(fs filesystem.FS, s string, j rmJob) (res rmChildResult) {
 			rerr = fs.RemoveWithContextAndExclusionPatterns(ctx, root, goPats...)
 		case "RemoveWithPrivileges":
 			rerr = fs.RemoveWithPrivileges(ctx, root)
+		case "RemoveWithPrivileges:first-attempt-refused":
+			// the backend refuses every removal until the ownership of something has been changed: the fallback
+			// (take the ownership, try again) runs
+			rfs := &refuseUntilChownFs{Fs: filesystem.NewExtendedOsFs()}
+			vfs := filesystem.NewVirtualFileSystem(rfs, filesystem.StandardFS, filesystem.IdentityPathConverterFunc)
+			rerr = vfs.RemoveWithPrivileges(ctx, root)
+			if !rfs.chowned.Load() {
+				res.Hist = append(res.Hist, "privileges-fallback-not-reached")
+			}
 		case "CleanDir":
 			rerr = fs.CleanDir(root)
 		case "CleanDirWithContext":
@@ -379,7 +412,7 @@ func runRmJob(fs filesystem.FS, s string, j rmJob) (res rmChildResult) {
 		r = "err"
 	}
 	res.Hist = append(res.Hist, "result:"+r)
-	if j.ep != "GarbageCollect" && j.ep != "RemoveWithPrivileges" {
+	if j.ep != "GarbageCollect" && !strings.HasPrefix(j.ep, "RemoveWithPrivileges") {
 		op := "remove"
 		if isClean {
 			op = "clean"
@@ -407,7 +440,7 @@ func rmLinksMain(args []string) {
 	}
 	base, _ := os.MkdirTemp("", "verif-rm")
 	defer os.RemoveAll(base)
-	eps := []string{"Rm", "RemoveWithContext", "RemoveWithContextAndExclusionPatterns", "RemoveWithPrivileges", "CleanDir", "CleanDirWithContext", "CleanDirWithContextAndExclusionPatterns", "GarbageCollect"}
+	eps := []string{"Rm", "RemoveWithContext", "RemoveWithContextAndExclusionPatterns", "RemoveWithPrivileges", "RemoveWithPrivileges:first-attempt-refused", "CleanDir", "CleanDirWithContext", "CleanDirWithContextAndExclusionPatterns", "GarbageCollect"}
 	var jobs []rmJob
 	if o.Replay != "" {
 		for _, c := range hx.ReplayCases(o.Replay, "rmcase ") {
@@ -535,4 +568,52 @@ func rmLinksMain(args []string) {
 	if len(rep.Failures) > 0 {
 		fmt.Printf("failures: %d\n", len(rep.Failures))
 	}
+}
+
+
+// refuseUntilChownFs refuses every removal (EACCES) until a Chown has gone through it
+type refuseUntilChownFs struct {
+	afero.Fs
+	chowned atomic.Bool
+}
+
+func (r *refuseUntilChownFs) Remove(name string) error {
+	if !r.chowned.Load() {
+		return &os.PathError{Op: "remove", Path: name, Err: syscall.EACCES}
+	}
+	return r.Fs.Remove(name)
+}
+
+func (r *refuseUntilChownFs) RemoveAll(name string) error {
+	if !r.chowned.Load() {
+		return &os.PathError{Op: "removeall", Path: name, Err: syscall.EACCES}
+	}
+	return r.Fs.RemoveAll(name)
+}
+
+func (r *refuseUntilChownFs) Chown(name string, uid, gid int) error {
+	r.chowned.Store(true)
+	return r.Fs.Chown(name, uid, gid)
+}
+
+func (r *refuseUntilChownFs) LstatIfPossible(name string) (os.FileInfo, bool, error) {
+	if l, ok := r.Fs.(afero.Lstater); ok {
+		return l.LstatIfPossible(name)
+	}
+	fi, err := r.Fs.Stat(name)
+	return fi, false, err
+}
+
+func (r *refuseUntilChownFs) ReadlinkIfPossible(name string) (string, error) {
+	if l, ok := r.Fs.(afero.LinkReader); ok {
+		return l.ReadlinkIfPossible(name)
+	}
+	return "", &os.PathError{Op: "readlink", Path: name, Err: afero.ErrNoReadlink}
+}
+
+func (r *refuseUntilChownFs) SymlinkIfPossible(oldname, newname string) error {
+	if l, ok := r.Fs.(afero.Linker); ok {
+		return l.SymlinkIfPossible(oldname, newname)
+	}
+	return &os.LinkError{Op: "symlink", Old: oldname, New: newname, Err: afero.ErrNoSymlink}
 }
